@@ -329,6 +329,9 @@ func checkC04(c *Ctx) {
 		c.Add("traces_validated_against_impl", 1)
 	}
 	c04FirstWrites(c)
+	c04ConsoleNamespace(c)
+	// several goroutines making the first use of one WithLazy logger: every entry arrives, with its context
+	runLazyOnce(c, "C04/", func(k string) bool { return k == "lazy/panic" || k == "lazy/entry-missing" || k == "lazy/context" })
 	c.Set("projected_interleavings", int64(len(keys)))
 	c.Set("gate_replays", int64(nrep))
 	// (ii) recorded free-running runs validated against PipelineTrace.tla
@@ -707,6 +710,62 @@ func c04FirstWrites(c *Ctx) {
 		}
 		if key, what := c04Oracle(w, counts); key != "" {
 			c.Violation(key, what+fmt.Sprintf(" [%d goroutines each logging their first entry through a fresh BufferedWriteSyncer at the same moment, round %d]", G, r), map[string]interface{}{"mode": "first-writes"})
+		}
+		c.Add("traces_validated_against_impl", 1)
+	}
+}
+
+// c04ConsoleNamespace: goroutines logging field-less and field-carrying entries through one console-encoded child
+// whose context ends inside an open namespace; every line must be intact and nest its fields in that namespace.
+func c04ConsoleNamespace(c *Ctx) {
+	rounds := c.Pick(40, 400)
+	for r := 0; r < rounds && !c.Saturated(); r++ {
+		sink := &lockedLines{}
+		enc := zapcore.NewConsoleEncoder(zapcore.EncoderConfig{MessageKey: "m"})
+		lg := zap.New(zapcore.NewCore(enc, zapcore.Lock(sink), zapcore.DebugLevel)).With(zap.Namespace("req"), zap.Int("id", 7))
+		const G = 4
+		start := make(chan struct{})
+		var wg sync.WaitGroup
+		for g := 1; g <= G; g++ {
+			wg.Add(1)
+			go func(g int) {
+				defer wg.Done()
+				<-start
+				for i := 1; i <= 6; i++ {
+					if (g+i)%2 == 0 {
+						lg.Info(fmt.Sprintf("g%d-%d", g, i))
+					} else {
+						lg.Info(fmt.Sprintf("g%d-%d", g, i), zap.Int("step", i))
+					}
+				}
+			}(g)
+		}
+		close(start)
+		wg.Wait()
+		lines := sink.all()
+		if len(lines) != G*6 {
+			c.Violation("C04/entry-lost", fmt.Sprintf("console child with an open namespace: %d of %d entries reached the sink", len(lines), G*6), map[string]interface{}{"mode": "console-namespace"})
+			return
+		}
+		for _, l := range lines {
+			var g, i int
+			parts := strings.SplitN(strings.TrimSuffix(l, "\n"), "\t", 2)
+			if len(parts) != 2 {
+				c.Violation("C04/line-corrupt", fmt.Sprintf("console line %q has no context column", l), map[string]interface{}{"mode": "console-namespace"})
+				return
+			}
+			if _, err := fmt.Sscanf(parts[0], "g%d-%d", &g, &i); err != nil {
+				c.Violation("C04/line-corrupt", fmt.Sprintf("console line %q does not start with its own message", l), map[string]interface{}{"mode": "console-namespace"})
+				return
+			}
+			want := `{"req": {"id": 7}}`
+			if (g+i)%2 == 1 {
+				want = fmt.Sprintf(`{"req": {"id": 7, "step": %d}}`, i)
+			}
+			if parts[1] != want {
+				c.Violation("C04/line-corrupt", fmt.Sprintf("console child with an open namespace, %d goroutines: line %q, its own entry renders as %q", G, l, parts[0]+"\t"+want), map[string]interface{}{"mode": "console-namespace"})
+				return
+			}
 		}
 		c.Add("traces_validated_against_impl", 1)
 	}
